@@ -781,4 +781,98 @@ theorem selectVerdict_pipeline (aesni : Bool) (raw : List Cfg) (sni : Bytes) (la
       simp only []
       exact entryOK e c f3 f4 (Or.inl (by rw [hw']; exact f2))
 
+
+/-! ### the certificate of the governing site (handshake model) -/
+
+theorem lastIdx_spec {raw : List Cfg} {k : Bytes} {i j : Nat} (h : lastIdx raw k i = some j) :
+    i ≤ j ∧ ∃ c, raw[j - i]? = some c ∧ mapKey c.hostname = k := by
+  induction raw generalizing i with
+  | nil => simp [lastIdx] at h
+  | cons c rest ih =>
+    simp only [lastIdx] at h
+    cases hr : lastIdx rest k (i + 1) with
+    | some j' =>
+      rw [hr] at h
+      simp only [Option.some.injEq] at h
+      subst h
+      obtain ⟨h1, c', h2, h3⟩ := ih hr
+      refine ⟨by omega, c', ?_, h3⟩
+      have : j' - i = (j' - (i + 1)) + 1 := by omega
+      rw [this, List.getElem?_cons_succ]; exact h2
+    | none =>
+      rw [hr] at h
+      simp only [] at h
+      by_cases hk : mapKey c.hostname = k
+      · simp only [hk, if_true, Option.some.injEq] at h
+        subst h
+        exact ⟨Nat.le_refl _, c, by simp, hk⟩
+      · simp [hk] at h
+
+theorem mapKey_eq_self {h : Bytes} (hn : mapKey h ≠ []) : mapKey h = h := by
+  unfold mapKey at *
+  split
+  · rename_i hc; simp [hc] at hn
+  · rfl
+
+theorem joinDot_head (l : Bytes) (ls : List Bytes) (c : Nat) (h : l.head? = some c) :
+    (Casket.VHost.joinDot (l :: ls)).head? = some c := by
+  cases l with
+  | nil => simp at h
+  | cons a as =>
+    cases ls with
+    | nil => simpa [Casket.VHost.joinDot] using h
+    | cons m ms => simpa [Casket.VHost.joinDot] using h
+
+theorem hostCands_not_alias {name k : Bytes} (hn : mapKey name ≠ []) (hk : k ∈ Casket.VHost.hostCands name) :
+    k ≠ [] ∧ k ≠ host0000 ∧ k ≠ hostV6Any := by
+  unfold Casket.VHost.hostCands at hk
+  simp only [List.mem_cons, List.mem_map, List.mem_range] at hk
+  rcases hk with rfl | ⟨i, _, rfl⟩
+  · refine ⟨?_, ?_, ?_⟩
+    · intro h; rw [h] at hn; exact hn rfl
+    · intro h; rw [h] at hn; exact hn (by decide)
+    · intro h; rw [h] at hn; exact hn (by decide)
+  · have hh : (Casket.VHost.wildcard (i + 1) (Casket.VHost.splitDot name)).head? = some Casket.VHost.cStar := by
+      unfold Casket.VHost.wildcard
+      rw [List.replicate_succ, List.cons_append]
+      exact joinDot_head _ _ _ rfl
+    refine ⟨?_, ?_, ?_⟩ <;> intro h <;> rw [h] at hh <;> revert hh <;> decide
+
+theorem find?_congr' {α : Type} {p q : α → Bool} (l : List α) (h : ∀ x ∈ l, p x = q x) :
+    l.find? p = l.find? q := by
+  induction l with
+  | nil => rfl
+  | cons a as ih =>
+    simp only [List.find?, h a (by simp)]
+    rw [ih (fun x hx => h x (by simp [hx]))]
+
+theorem certFor_eq_key {raw : List Cfg} {name san k : Bytes} (hn : mapKey name ≠ [])
+    (hc : certFor raw name = some san) (hk : specKey raw name = some k) (hkne : k ≠ []) : san = k := by
+  unfold specKey at hk
+  rw [List.find?_append] at hk
+  unfold certFor at hc
+  have hcongr : List.find? (keyDeclared raw) (Casket.VHost.hostCands name)
+      = List.find? (fun k' => raw.any (fun c => c.hostname == k')) (Casket.VHost.hostCands name) := by
+    apply find?_congr'
+    intro k' hk'
+    obtain ⟨h1, h2, h3⟩ := hostCands_not_alias hn hk'
+    unfold keyDeclared
+    congr 1
+    funext c
+    unfold mapKey
+    by_cases ha : c.hostname = host0000 ∨ c.hostname = hostV6Any
+    · simp only [ha, if_true]
+      rcases ha with ha | ha
+      · rw [ha]
+        have e1 : ¬ ([] : Bytes) = k' := fun e => h1 e.symm
+        have e2 : ¬ host0000 = k' := fun e => h2 e.symm
+        rw [beq_eq_false_iff_ne.mpr e1, beq_eq_false_iff_ne.mpr e2]
+      · rw [ha]
+        have e1 : ¬ ([] : Bytes) = k' := fun e => h1 e.symm
+        have e2 : ¬ hostV6Any = k' := fun e => h3 e.symm
+        rw [beq_eq_false_iff_ne.mpr e1, beq_eq_false_iff_ne.mpr e2]
+    · simp only [ha, if_false]
+  rw [hcongr, hc] at hk
+  simpa using hk
+
 end Casket.TLSGroup
